@@ -21,6 +21,31 @@
 //                functions (incl. methods of the stateless BinaryProtocol), package-level error values, package-level
 //                bool variables (become explicit parameters), content-identity helpers (spanCache.Copy,
 //                unsafex.BinaryToString / StringToBinary: a copy or a cast, the content is what is modelled)
+//
+// Added for the write side of the generated structs and of TTHeader (k-base.go BLength / FastWrite / FastWriteNocopy,
+// binary.go Write{String,Binary}Nocopy, ttheader utils.go writers, writeKVInfo, Encode):
+//   `for k, v := range m` over a map : Go does not specify the order, so the sequence of visited entries is an explicit
+//                parameter `ord<k>` of the function (one per range statement; a caller gets one per call site of a callee
+//                that has them); the loop threads the entries still to be visited. GoSem.MapOrder says what Go guarantees
+//                about such a sequence. Refused: a body that may change the map, a map range (or a call of a function
+//                with order parameters) inside a loop, in a self-recursive function.
+//   `len(m)`, `v, ok := m[k]`, `m[k]`  : mapLen / mapGet on the association list (a map parameter is in/out only when the
+//                body stores into it, directly or through a callee)
+//   `p == nil` for a pointer-to-struct receiver (or a method on p whose receiver may be nil): the receiver is
+//                `Option S`, every `p.F` dereferences it (`derefP`, panic "nilderef"); such a receiver is read-only
+//   thrift.NocopyWriter parameter  : `Option ν` (none = nil interface) with its behaviour `J : NocopyI ν`, in/out;
+//                `w == nil`, `w.WriteDirect(b, n)` (derefP, then J.writeDirect); a literal nil argument is passed as
+//                `nilNocopy` / `(none : Option Unit)`
+//   bufiox.Writer / bufiox.Reader as a PARAMETER (not only wrapped in a receiver): the abstract state ρ with `I`
+//   `x / c`, `x % c`  : Go truncates toward zero: `wrap t (Int.tdiv x c)` / `Int.tmod` for a non-zero constant, otherwise
+//                `goDiv` / `goMod` with the divide-by-zero panic
+//   `x := region[lo:hi]` with region a slice handed out by Malloc : x ALIASES that part (no copy): bounds check `bchk`,
+//                stores through x (`PutUintNN(x, …)`) go into the region (`bputUNN`), reading x yields the part's current
+//                contents (`bsub`); `PutUintNN(local[lo:hi], …)` likewise. A loop that is entered while regions are live
+//                takes the region variables, their handles and the writer state (a `return` inside commits them).
+//   a local `const` declaration (uses are folded by the type checker)
+//   the same source loop translated twice (the code after an `if` is duplicated into both branches) yields ONE loop
+//                function (texts compared up to the numbering of temporaries)
 package main
 
 import (
